@@ -18,7 +18,9 @@ EXPLANATION = (
     "and of the scalar fallbacks is executed abstractly for every element count 0..N (N covers all "
     "remainders of the widest unrolled stride) with buffer contents unknown; every vector/scalar load "
     "and store (masked forms by their mask population) must lie inside the extent the slot's contract "
-    "gives each buffer ([0,count) elements), and output kernels must write every output byte. Decides "
+    "gives each buffer ([0,count) elements), and output kernels must write every output byte; (3) the "
+    "match_copy kernels only use block copies as wide as the guarded match distance (rule shared with "
+    "C09.5), which is where an overlapping copy differs from the scalar byte loop. Decides "
     "these clauses, not equality of outputs with the scalar definition; ARM kernels are not part of "
     "this build.")
 
@@ -246,6 +248,9 @@ def run(ctx):
     P = ctx.P
     ctx.clause("C15.1 dispatch table complete, ordered, capability-guarded, slot/kernel/wrapper agreement, extern prototypes")
     ctx.clause("C15.2 access extents and output coverage of every x86 kernel and scalar fallback (skeleton execution)")
+    ctx.clause("C15.3 match_copy kernels: block copies no wider than the guarded distance")
+    from ..rules import overlap
+    overlap.run(ctx, decoders=False)
     init = P.fn("carquet_simd_dispatch_init", DP)
     rec = P.record("carquet_simd_dispatch_t") if "carquet_simd_dispatch_t" in P.records else None
     if rec is None:
